@@ -162,7 +162,7 @@ theorem blocking_without_pending_writer_returns :
       [.newSub 0, .step 0, .step 0, .step 0, .step 0, .step 0, .step 0,
        .newPub 0 [7] none, .step 2, .step 2, .step 2, .step 2, .step 2,
        .newPub 1 [8] (some (0, 0)), .step 3, .step 3, .step 3, .step 3, .step 3, .step 3, .step 3, .step 3,
-       .step 2, .step 2, .step 2] = some s ∧
+       .senderDone 0 0, .step 2, .step 2, .step 2] = some s ∧
       s.ths[2]? = some (.pub 0 [] .retOk none) ∧ s.readers = [] := by
   refine ⟨_, rfl, ?_, ?_⟩ <;> decide
 
